@@ -10,6 +10,7 @@ import time
 d = os.path.abspath(sys.argv[1])
 meta = json.load(open(os.path.join(d, "meta.json")))
 props = sys.argv[2:] or [meta["property"]]
+HOME = os.path.dirname(os.path.dirname(os.path.abspath(__file__)))
 TREE = os.environ.get("SEED_TREE", "/repo")      # a scratch worktree keeps /repo itself untouched while evaluating
 env = dict(os.environ, PYTHONPATH=TREE, VERIF_REPO=TREE, VERIF_EVIDENCE_DIR="/tmp/seed_eval/evidence",
            VERIF_REPLAYS_DIR="/tmp/seed_eval/replays")
@@ -36,7 +37,7 @@ try:
     out["demo_on_patched"] = demo.returncode
     for p in props:
         t = time.time()
-        r = run(["/venv/bin/python", "/verif/harness/check.py", p, "--tier", os.environ.get("SEED_TIER", "quick")], cwd="/verif", timeout=3600, env=env)
+        r = run(["/venv/bin/python", os.path.join(HOME, "harness", "check.py"), p, "--tier", os.environ.get("SEED_TIER", "quick")], cwd=HOME, timeout=3600, env=env)
         viol = [l for l in r.stdout.splitlines() if l.startswith("VIOLATION")]
         clauses = sorted({l.split("clause=")[1].split()[0] for l in r.stdout.splitlines() if "clause=" in l})
         out["checks"][p] = {"exit": r.returncode, "violations": len(viol), "clauses": clauses, "wall_s": round(time.time() - t, 1),
